@@ -65,12 +65,18 @@ func (h *runner) violation(line int, class, msg string) {
 func (h *runner) check(q query, phase string) {
 	c := h.c
 	want := oracle(q, h.d).text()
+	wantRaw := want
+	if q.maskedFill() {
+		wantRaw = oracleRaw(q, h.d).text()
+	}
 	// the reference evaluation in Go is itself compared with the Lean evaluator
 	c.Emit(fmt.Sprintf("q %s @ go-reference", q.opText()), want)
 	var first string
 	var firstLine int
 	nonEmpty := false
 	tiesMoved := false
+	var rawTexts []string
+	canonAgree := true
 	for i, cf := range h.configs {
 		raw := h.run(q, cf)
 		ca, moved := canonImpl(q, h.d, raw)
@@ -78,9 +84,24 @@ func (h *runner) check(q query, phase string) {
 		if moved {
 			tiesMoved = true
 		}
-		line := c.Emit(fmt.Sprintf("q %s @ %s %s", q.opText(), cf.text(), phase), got)
+		rawTexts = append(rawTexts, raw.text())
+		line := c.Emit(fmt.Sprintf("q %s @ %s %s ds=%d", q.opText(), cf.text(), phase, h.idx), got)
 		if got != "ans" {
 			nonEmpty = true
+		}
+		if q.maskedFill() { // known finding: the filled cells are judged on the answers as returned
+			if i == 0 {
+				first, firstLine = got, line
+			} else if got != first {
+				canonAgree = false
+			}
+			if raw.text() != wantRaw {
+				h.violation(line, classify(q, "spec"), fmt.Sprintf("ds=%d %s [%s %s] answers %s, the reference evaluation gives %s; data: %s; history: %s", h.idx, q.sql(), cf.text(), phase, clip(raw.text()), clip(wantRaw), clip(h.d.text()), h.d.history()))
+			}
+			if got != want {
+				h.violation(line, "", fmt.Sprintf("ds=%d %s [%s %s]: apart from the filled cells the answer is %s, the reference evaluation gives %s; data: %s; history: %s", h.idx, q.sql(), cf.text(), phase, clip(got), clip(want), clip(h.d.text()), h.d.history()))
+			}
+			continue
 		}
 		if i == 0 {
 			first, firstLine = got, line
@@ -90,10 +111,24 @@ func (h *runner) check(q query, phase string) {
 			continue
 		}
 		if got != first {
+			canonAgree = false
 			h.violation(line, classify(q, "config"), fmt.Sprintf("ds=%d %s answers %s under [%s] and %s under [%s] (%s); data: %s; history: %s", h.idx, q.sql(), clip(first), h.configs[0].text(), clip(got), cf.text(), phase, clip(h.d.text()), h.d.history()))
 		}
 	}
-	_ = firstLine
+	// the canonical answers agree, the answers as returned do not: only the rows of one
+	// timestamp are ordered (or, under LIMIT / OFFSET, chosen) differently
+	if canonAgree {
+		for i := 1; i < len(rawTexts); i++ {
+			if rawTexts[i] != rawTexts[0] {
+				cls := "equal-timestamps-order"
+				if q.limit > 0 {
+					cls = "equal-timestamps-limit"
+				}
+				h.violation(firstLine+i, cls, fmt.Sprintf("ds=%d %s answers %s under [%s] and %s under [%s] (%s); data: %s; history: %s", h.idx, q.sql(), clip(rawTexts[0]), h.configs[0].text(), clip(rawTexts[i]), h.configs[i].text(), phase, clip(h.d.text()), h.d.history()))
+				break
+			}
+		}
+	}
 	if tiesMoved {
 		c.Count("canon:order-inside-a-timestamp-normalised")
 	}
@@ -152,7 +187,13 @@ func (d *dataset) history() string {
 	return clip(strings.Join(out, " | "))
 }
 
+// classify names the finding class of a violation (known_findings.jsonl); "" = unclassified.
+//   fill-previous-multi : fill(previous) with several calls or a group-by tag (FillTransform
+//                         looks the previous value up by row position in the input chunk)
 func classify(q query, kind string) string {
+	if q.agg && q.interval > 0 && q.fill == "previous" && (len(q.calls) > 1 || q.grp != "-") {
+		return "fill-previous-multi"
+	}
 	return ""
 }
 
@@ -160,6 +201,9 @@ func (h *runner) checkDescPair(q query) {
 	// a descending query returns the ascending answer reversed (same limit-free query both ways)
 	if q.limit > 0 || q.offset > 0 {
 		return
+	}
+	if q.agg && q.interval > 0 && q.fill == "previous" {
+		return // "previous" is the previous bucket in output order: not a reversal by design
 	}
 	qa, qd := q, q
 	qa.asc, qd.asc = true, false
@@ -176,7 +220,7 @@ func (h *runner) checkDescPair(q query) {
 }
 
 func runDataset(c *hx.Ctx, r *hx.Rng, idx int, nq int) error {
-	big := c.Tier == "thorough" && r.Chance(4)
+	big := (c.Tier == "thorough" && r.Chance(4)) || c.Arg("big", "") != ""
 	d := genDataset(r.Fork(), big)
 	sh, dir, err := loadDataset(d)
 	if err != nil {
@@ -193,7 +237,16 @@ func runDataset(c *hx.Ctx, r *hx.Rng, idx int, nq int) error {
 	c.Count(fmt.Sprintf("dataset:times=%d", d.nTimes))
 	if qs := c.Arg("q", ""); qs != "" { // ad-hoc statements against this data set (debugging)
 		fmt.Fprintf(os.Stderr, "dataset %d: %s\nhistory: %s\n", idx, d.text(), d.history())
-		probe(sh, qs, h.configs)
+		cfgs := h.configs
+		if cs := c.Arg("cfgs", ""); cs != "" {
+			cfgs = nil
+			for _, t := range strings.Split(cs, ";") {
+				var cf config
+				fmt.Sscanf(t, "%d,%d,%d", &cf.chunk, &cf.parallel, &cf.chunked)
+				cfgs = append(cfgs, cf)
+			}
+		}
+		probe(sh, qs, cfgs)
 		return sh.Close()
 	}
 	var qs []query
